@@ -71,7 +71,12 @@ void LocID::deleteLink(std::string name, hid_t plist) {
 
 unsigned int LocID::referenceCount() const {
     H5O_info_t oInfo;
+    // only the basic fields (among them rc) are needed
+#if H5_VERSION_GE(1,10,3) && !H5_VERSION_GE(1,12,0)
+    HErr res = H5Oget_info2(hid, &oInfo, H5O_INFO_BASIC);
+#else
     HErr res = H5Oget_info(hid, &oInfo);
+#endif
     res.check("LocID:referenceCount: Coud not get object info");
     return oInfo.rc;
 }
